@@ -2,6 +2,8 @@ import AC.DictAlg
 import AC.Assemble
 import AC.Props.C08
 import AC.Props.C09
+import AC.SeqLast
+import AC.OptProof
 /-! # C01 — every search algorithm returns a genuine addition chain ending at the target
 
 Model: `P.DA.execute` (`exec.Execute` over `binary.RightToLeft`, `alg.AsChainAlgorithm`,
@@ -89,6 +91,56 @@ theorem C01_assemble (pruned dc : List Int) (n cur0 : Int)
     (hdpos : ∀ y ∈ dc, 1 ≤ y) (hle : ∀ x ∈ pruned ++ dc, x ≤ n) (hn : n ∈ pruned ++ dc) :
     IsChain (sortUniq (pruned ++ dc)) ∧ (sortUniq (pruned ++ dc)).getLast? = some n :=
   dict_assemble pruned dc n cur0 hp1 hppos hpcl hcur hdcl hdpos hle hn
+
+/-- `Execute` succeeds as soon as `FindChain` returns a valid chain ending at the target -/
+theorem C01_execute_of_find (a : ChainAlg) (n : Nat) (o : List TermP) (c : List Int)
+    (hf : a.find n o = .ok c) (hc : IsChain c) (hl : c.getLast? = some (n : Int)) :
+    ∃ p, execute a n o = .ok (c, p) := by
+  obtain ⟨p, hp⟩ := (validate_iff c).2 hc
+  refine ⟨p, ?_⟩
+  unfold execute
+  rw [hf]; simp only []; rw [hp]; simp only []
+  simp [hl]
+
+/-- totality, binary method: no error for any `n ≥ 1` -/
+theorem C01_total_binary (n : Nat) (hn : 1 ≤ n) (o : List TermP) :
+    ∃ c p, execute .binaryRTL n o = .ok (c, p) := by
+  obtain ⟨h1, h2⟩ := binary_ok n hn
+  have hf : ChainAlg.binaryRTL.find n o = .ok (rtl n) := by
+    unfold ChainAlg.find; simp; omega
+  obtain ⟨p, hp⟩ := C01_execute_of_find _ n o _ hf h1 h2
+  exact ⟨_, p, hp⟩
+
+/-- totality, heuristic compositions containing a total heuristic used as chain algorithms -/
+theorem C01_total_heuristic (h : Heur) (ht : h.isTotal = true) (n : Nat) (hn : 1 ≤ n) (o : List TermP) :
+    ∃ c p, execute (.asChain (.heuristic h)) n o = .ok (c, p) := by
+  obtain ⟨c, h1, h2, h3⟩ := heuristic_asChain h ht n hn
+  have hf : (ChainAlg.asChain (.heuristic h)).find n o = .ok c := by
+    unfold ChainAlg.find; rw [h1]
+  obtain ⟨p, hp⟩ := C01_execute_of_find _ n o _ hf h2 h3
+  exact ⟨_, p, hp⟩
+
+/-- totality lifts through the optimisation wrapper (uses C10) -/
+theorem C01_total_opt (a : ChainAlg) (n : Nat) (o : List TermP) (c : List Int) (p : List Op)
+    (h : execute a n o = .ok (c, p)) : ∃ p', execute (.opt a) n o = .ok (P.OptX.optimize c, p') := by
+  obtain ⟨hc, hl, _, _⟩ := C01_execute_sound a n o c p h
+  have hf : a.find n o = .ok c := by
+    unfold execute at h
+    split at h
+    · cases h
+    · rename_i c' hc'
+      split at h
+      · cases h
+      · split at h
+        · cases h; exact hc'
+        · cases h
+  obtain ⟨h1, _, _, h4⟩ := P.OptX.optimize_ok c hc
+  have hf' : (ChainAlg.opt a).find n o = .ok (P.OptX.optimize c) := by
+    show (match a.find n o with
+      | Except.error e => (Except.error e : Except Err (List Int))
+      | Except.ok c => Except.ok (P.OptX.optimize c)) = _
+    rw [hf]
+  exact C01_execute_of_find _ n o _ hf' h1 (by rw [h4, hl])
 
 /-- non-vacuity: a dictionary algorithm with the optimisation wrapper is well-formed -/
 example : (ChainAlg.opt (.dict (.sliding 4) (.heuristic (.useFirst [.halving, .deltaLargest])))).wf = true := by decide
